@@ -233,6 +233,44 @@ func modeC01(e *Env) {
 			RunStreamScenario(e.Rec, sc)
 		}
 	}
+	// (a2) long histories over hundreds of tables: every transaction announces tables under ids never seen before, one or two
+	// per statement (TABLE_MAP a, TABLE_MAP b, ROWS a, ROWS b), so that whatever the library keeps per table id grows
+	for v := 0; v < 2; v++ {
+		cfg := cfgs[(v*5+int(e.Seed))%len(cfgs)]
+		l := &Log{Cfg: cfg}
+		f := &LogFile{Name: "mysql-bin.000001"}
+		l.Files = []*LogFile{f}
+		ts := uint32(1600000000)
+		g := gp
+		g.SimpleCols, g.MaxCols, g.MaxRows = true, 2, 1
+		nextID := uint64(1000)
+		newTable := func() *Table {
+			nextID++
+			t := genTable(e.R, nextID, g)
+			t.Name = "t" + itoa(int(nextID))
+			return t
+		}
+		ntx := e.N(330, 700)
+		for x := 0; x < ntx; x++ {
+			u := &Unit{U: "txxid", Evs: []*Ev{{K: "query", TS: ts, Cat: "begin", DB: "d", SQL: "BEGIN"}}}
+			a := newTable()
+			if x == 0 && v == 1 {
+				// (one single-table transaction first: the number of ids seen before a two-table statement is odd / even)
+				u.Evs = append(u.Evs, &Ev{K: "tablemap", TS: ts, Tbl: a}, genRowsEv(e.R, "write", a, g, ts))
+			} else {
+				b := newTable()
+				u.Evs = append(u.Evs, &Ev{K: "tablemap", TS: ts, Tbl: a}, &Ev{K: "tablemap", TS: ts, Tbl: b},
+					genRowsEv(e.R, "write", a, g, ts), genRowsEv(e.R, pickS(e.R, "write", "update", "delete"), b, g, ts))
+			}
+			u.Evs = append(u.Evs, &Ev{K: "xid", TS: ts})
+			f.Units = append(f.Units, u)
+			ts++
+		}
+		l.Layout()
+		id++
+		RunStreamScenario(e.Rec, &StreamScenario{ID: id, Fam: "c01", Log: l, Start: l.Boundaries()[0], ServerID: 4242,
+			Attempts: []AttemptPlan{defaultAttempt()}, Note: "many-tables"})
+	}
 	// (b) random wide histories, every configuration, random valid start positions
 	n := e.N(36, 600)
 	for i := 0; i < n; i++ {
